@@ -18,10 +18,12 @@ v2+ broker, else the high watermark); else NoOffsetForPartitionError (nothing co
 first record is the first visible one >= o and position() lies in [o, next visible record].
 
 Families
-  G  grid x program {getone(tp) | position(tp)} on the default schedule plus f<=1 (retriable codes, drop-before/after,
-     lost reply on OffsetFetch / ListOffsets / FindCoordinator) and r<=1
+  G  grid x program {getone(tp) | position(tp)} on the default schedule plus f<=1 (retriable codes OffsetFetch 14/16/15,
+     ListOffsets 6/3/5, FindCoordinator 15; drop-before/after, lost reply) and r<=1; thorough: r<=1 and f<=1 together on
+     the v2/v3 cells, p<=1 everywhere
   S  grid cells x a seek(tp, o) gate that the explorer may release at every choice point between assignment and the
-     first delivery (r<=1 at quiescent points, p<=1 inside callback cascades), alone and combined with one fault
+     first delivery / raised exception / position() result (r<=1 at quiescent points, p<=1 inside callback cascades);
+     thorough: three targets (visible record, log start, above the LSO) on v3 and the seek combined with one fault
 """
 from vf import explore, scen_consumer
 
